@@ -29,12 +29,14 @@ func checkC05(c *Ctx) string {
 	checkC05Bounded(c, a)
 	checkC05Contain(c, a)
 	checkScanStartsAtEnd(c, "C05.7 K11 the search for the latest state starts at the end of the data")
+	checkCheckerUsesItsQuantities(c, "C05.8 K8 the consistency check compares every quantity it computes")
 	return "Static shape of crash recovery: OpenDbStor returns (nil, err) on the corrupt arm and on every path not behind readTail()==shutdown, registers its recover before ReadState; Corrupt() writes the corrupt marker " +
 		"(Alloc in writable modes, file append otherwise), close never appends the shutdown marker to a corrupted database, CheckDatabase/Check call Corrupt before returning a finding; " +
 		"every return of readState that reports a state is dominated by the magic1 test, the checksum, the magic2 test and offset<off tests for both returned offsets; every caller of ReadState has a deferred recover; " +
 		"in repair every return of fix/fixHead/copySize is either behind a failed error test or behind the write of the shutdown marker; no error result of os/io/system/stor/db19 calls in the files of Repair and CheckDatabase is dropped; " +
 		"K24: a slice obtained with Stor.Data at an offset found by Stor.LastOffset/FirstOffset (followed through arguments, two levels) is resliced/indexed with a constant bound only behind a dominating len test; " +
 		"K17: goroutines started (go / WaitGroup.Go) by code reachable from CheckDatabase, Repair, PrintStates that can reach an explicit panic or an unknown function value have a swallowing deferred recover. " +
+		"The table check (checkTable2/checkFirstIndex/CheckOtherIndex) compares the first index's row count and byte size with the table's Info and every other index's count and offset checksum with the first's, each mismatch panics, and no index is skipped except the first and after a recorded error. " +
 		"Not decided: that the newest good state is found (search arithmetic), implicit run-time panics (index, nil) in goroutines without recover, calls through interfaces in the reachability of K17."
 }
 
